@@ -519,7 +519,7 @@ func runC16(env *Env, s Scenario) {
 					return
 				}
 				// (the server model refuses some requests: either answer is the one it sent)
-				if !strings.Contains(r.Result, "<ok/>") && !strings.Contains(r.Result, "<error-tag>operation-failed</error-tag>") {
+				if !strings.Contains(r.Result, "<ok/>") && !strings.Contains(r.Result, "<rpc-error>") {
 					opErr = fmt.Errorf("unexpected reply %q", r.Result)
 
 					return
